@@ -304,7 +304,7 @@ def main():
         sel = list(range(total)) if nsel == total else sorted(
             int(x) for x in np.random.default_rng([chk.seed, 15, 0]).choice(
                 total, size=nsel, replace=False))
-        nrand, depth = max(1, int(400 * scale)), 300
+        nrand, depth = max(1, int(120 * scale)), 300
         exhaustive = nsel == total
     nx = 64 if chk.tier == "quick" else 512
     step = (len(sel) + nx - 1) // nx
